@@ -386,8 +386,11 @@ fn validate_nameserver_response(
             if rtype.matches(question.qtype) && an.name == final_name {
                 rrs_for_query.push(an.clone());
                 seen_final_record = true;
-            } else if rtype == RecordType::CNAME && cname_map.contains_key(&an.name) {
-                rrs_for_query.push(an.clone());
+            } else if let RecordTypeWithData::CNAME { cname } = &an.rtype_with_data {
+                // only the CNAMEs on the path from the question name
+                if cname_map.get(&an.name) == Some(cname) {
+                    rrs_for_query.push(an.clone());
+                }
             }
         }
 
@@ -448,7 +451,9 @@ fn validate_nameserver_response(
         let mut nameserver_rrs = Vec::<ResourceRecord>::with_capacity(ns_names.len() * 2);
         for rr in &response.answers {
             match &rr.rtype_with_data {
-                RecordTypeWithData::NS { nsdname } if ns_names.contains(nsdname) => {
+                RecordTypeWithData::NS { nsdname }
+                    if rr.name == match_name && ns_names.contains(nsdname) =>
+                {
                     nameserver_rrs.push(rr.clone());
                 }
                 RecordTypeWithData::A { .. } if ns_names.contains(&rr.name) => {
@@ -462,7 +467,9 @@ fn validate_nameserver_response(
         }
         for rr in &response.authority {
             match &rr.rtype_with_data {
-                RecordTypeWithData::NS { nsdname } if ns_names.contains(nsdname) => {
+                RecordTypeWithData::NS { nsdname }
+                    if rr.name == match_name && ns_names.contains(nsdname) =>
+                {
                     nameserver_rrs.push(rr.clone());
                 }
                 _ => (),
@@ -534,7 +541,17 @@ fn follow_cnames(
     }
 
     if got_match || !seen.is_empty() {
-        Some((final_name, cname_map))
+        // only return the CNAMEs which were followed
+        let mut followed = HashMap::with_capacity(seen.len());
+        let mut name = target.clone();
+        while let Some(next) = cname_map.get(&name) {
+            if followed.contains_key(&name) {
+                break;
+            }
+            followed.insert(name, next.clone());
+            name = next.clone();
+        }
+        Some((final_name, followed))
     } else {
         None
     }
